@@ -604,6 +604,7 @@ macro_rules! strict_backend {
                     // ======================================================= hand-written Clone / PartialEq impls
                     "ff.clone" => val(o_ff(&ff(&a["f"]).clone())),
                     "sf.clone" => val(o_sf_o(&sf_o(&a["a"]).clone())),
+                    "sf.is_zero" => val(json!(<SF<O> as num_traits::Zero>::is_zero(&sf_o(&a["a"])))),
                     "sf.eq" => val(json!(sf_o(&a["a"]) == sf_o(&a["b"]))),
                     "ic.clone_ff" => val(o_icf(&icf(&a["ic"]).clone())),
                     "ic.clone_sf" => val(o_ics_o(&ics_o(&a["ic"]).clone())),
